@@ -280,7 +280,8 @@ func chanClosed(ch reflect.Value) bool {
 }
 
 var closedFlagOK = func() bool {
-	if unsafe.Sizeof(uintptr(0)) != 8 {
+	// C14_NO_CLOSED_FLAG=1: use the fall-back (receive) path, so that it stays exercised
+	if unsafe.Sizeof(uintptr(0)) != 8 || os.Getenv("C14_NO_CLOSED_FLAG") == "1" {
 		return false
 	}
 	a, b, c := make(chan int), make(chan error, 3), make(chan []byte, 1)
@@ -825,7 +826,49 @@ func execLine(line string) h.Result {
 	return dispatch(line)
 }
 
+// A verdict that can be produced by machine load alone (a goroutine that has not been scheduled yet looks
+// leaked, a 3 s grace period is over before a starved child got to run, a quiescence test gave up) is not
+// reported from a run that shared the machine with the other workers: the line is run once more ALONE
+// (the pool is held back), and the verdict of that run counts. A crash verdict (send on / close of a closed
+// channel) is never load and is reported as it is.
+var solo sync.RWMutex
+
+func loadSensitive(oracle string) bool {
+	sig := oracle
+	if i := strings.Index(sig, ":"); i >= 0 {
+		sig = sig[:i]
+	}
+	return strings.HasPrefix(sig, "leak@") || strings.HasPrefix(sig, "open@") || strings.HasPrefix(sig, "harness-") ||
+		sig == "dirty" || strings.HasPrefix(sig, "stuck")
+}
+
 func dispatch(line string) h.Result {
+	if strings.HasPrefix(line, "child ") {
+		return dispatchRaw(line)
+	}
+	solo.RLock()
+	r := dispatchRaw(line)
+	solo.RUnlock()
+	if r.Oracle == "" || !loadSensitive(r.Oracle) {
+		return r
+	}
+	solo.Lock()
+	time.Sleep(200 * time.Millisecond) // let the children of the other workers' last lines go away
+	r2 := dispatchRaw(line)
+	solo.Unlock()
+	first := r.Oracle
+	if i := strings.Index(first, ":"); i >= 0 {
+		first = first[:i]
+	}
+	if r2.Oracle == "" {
+		r2.Class += " (re-run alone: clean; the first run, beside other workers, said " + first + ")"
+	} else {
+		r2.Class += " (confirmed by a re-run alone)"
+	}
+	return r2
+}
+
+func dispatchRaw(line string) h.Result {
 	if strings.HasPrefix(line, "child spin ") {
 		o, d, err := runSpinOnce(parseSpin(strings.TrimPrefix(line, "child ")))
 		if err != nil {
